@@ -29,6 +29,7 @@ type mRoute struct {
 	Chain  []int  // group..., route..., main
 	Bare   string // the route's own path without any group prefix (concrete), "" at top level
 	Any    bool   // registered for all methods
+	Listed string // "" or the method list the route is listed under by Routes() (a route with several methods appears once in the model per method)
 }
 
 type mResult struct {
@@ -101,8 +102,8 @@ func modelProgram(prog []refmodel.Stmt, strict bool) *mResult {
 				addRoute("GET", gp, "/{id}", cat(cat(g, rmw...), mains[1]))
 			case "resource":
 				mw := ids.Take(s.K)
-				mains := ids.Take(3) // Index, Show, Store
-				uses := ids.Take(3)  // one per-action middleware each (from the controller instance's Uses())
+				mains := ids.Take(4) // Index, Show, Store, Update
+				uses := ids.Take(4)  // one per-action middleware each (from the controller instance's Uses())
 				gp := prefix + refmodel.Norm(fmt.Sprintf("/q%d%swidget", cn, s.Prefix), strict)
 				cn++
 				g := cat(group, mw...)
@@ -110,6 +111,11 @@ func modelProgram(prog []refmodel.Stmt, strict bool) *mResult {
 				addRoute("GET", gp, "/", cat(cat(g, uses[0]), mains[0]))
 				addRoute("GET", gp, "{id}/", cat(cat(g, uses[1]), mains[1]))
 				addRoute("POST", gp, "/", cat(cat(g, uses[2]), mains[2]))
+				// Update is the one action with two methods: both carry the action's middleware
+				addRoute("PUT", gp, "{id}/", cat(cat(g, uses[3]), mains[3]))
+				res.Routes[len(res.Routes)-1].Listed = "PATCH,PUT"
+				addRoute("PATCH", gp, "{id}/", cat(cat(g, uses[3]), mains[3]))
+				res.Routes[len(res.Routes)-1].Listed = "PATCH,PUT"
 			}
 		}
 	}
@@ -129,18 +135,19 @@ func (c *progCtl) AddRoutes(r *rux.Router) {
 	r.GET("/{id}", c.hs[1], c.hs[2])
 }
 
-// Widget is the resource controller of the C12 programs (Index, Show, Store).
+// Widget is the resource controller of the C12 programs (Index, Show, Store, Update).
 type Widget struct {
-	index, show, store rux.HandlerFunc
-	uses               map[string][]rux.HandlerFunc // per-action middleware of THIS instance
+	index, show, store, update rux.HandlerFunc
+	uses                       map[string][]rux.HandlerFunc // per-action middleware of THIS instance
 }
 
 // Uses hands out this instance's per-action middleware
 func (w *Widget) Uses() map[string][]rux.HandlerFunc { return w.uses }
 
-func (w *Widget) Index(c *rux.Context) { w.index(c) }
-func (w *Widget) Show(c *rux.Context)  { w.show(c) }
-func (w *Widget) Store(c *rux.Context) { w.store(c) }
+func (w *Widget) Index(c *rux.Context)  { w.index(c) }
+func (w *Widget) Show(c *rux.Context)   { w.show(c) }
+func (w *Widget) Store(c *rux.Context)  { w.store(c) }
+func (w *Widget) Update(c *rux.Context) { w.update(c) }
 
 // behaviour of handler id: even ids call Next once, odd ids return without calling it
 func progBehaviour(id int) refmodel.Behaviour {
@@ -245,13 +252,13 @@ func execProgram(prog []refmodel.Stmt, sentinel, strict bool) (pr *progRun_, pv 
 					pr.rts = append(pr.rts, nil, nil)
 				case "resource":
 					mw := spare(mk(s.K), s.Spare)
-					mains := mkMain(3)
-					um := mk(3)
+					mains := mkMain(4)
+					um := mk(4)
 					rp := fmt.Sprintf("/q%d%s", cn, s.Prefix)
 					cn++
-					r.Resource(rp, &Widget{index: mains[0], show: mains[1], store: mains[2],
-						uses: map[string][]rux.HandlerFunc{"Index": {um[0]}, "Show": {um[1]}, "Store": {um[2]}, "Edit": {um[0], um[1]}}}, mw...)
-					pr.rts = append(pr.rts, nil, nil, nil)
+					r.Resource(rp, &Widget{index: mains[0], show: mains[1], store: mains[2], update: mains[3],
+						uses: map[string][]rux.HandlerFunc{"Index": {um[0]}, "Show": {um[1]}, "Store": {um[2]}, "Update": {um[3]}, "Edit": {um[0], um[1]}}}, mw...)
+					pr.rts = append(pr.rts, nil, nil, nil, nil, nil)
 				}
 				if top && sentinel {
 					// residue sentinel: a route registered at top level right now has no prefix and no group middleware
@@ -407,6 +414,10 @@ func progRun(c progCase, mode string, st *fw.Stats) []fw.Viol {
 		}
 		wantSet := map[string]bool{}
 		for _, rt := range m.Routes {
+			if rt.Listed != "" {
+				wantSet[rt.Listed+" "+rt.Path] = true
+				continue
+			}
 			wantSet[rt.Method+" "+rt.Path] = true
 		}
 		for i := 0; i < nWant; i++ {
